@@ -164,3 +164,116 @@ def tasks():
         return []
     cfgs = configs()
     return [{"cfgs": cfgs[i::16]} for i in range(16)]
+
+
+# ---------------------------------------------------------------------------
+# part "reused_hashers": a context built from the configured hasher OBJECTS of another context
+# (old.schemes(resolve=True) / old.handler(name)): nothing of the old policy may travel with them
+# ---------------------------------------------------------------------------
+REUSE_POOL = ("sha256_crypt", "md5_crypt", "des_crypt", "ldap_md5_crypt")
+
+
+def reuse_configs():
+    import itertools
+
+    out = []
+    for n in (2, 3):
+        for L in itertools.permutations(REUSE_POOL, n):
+            for old_dep in ([L[-1]], list(L[1:]), "auto"):
+                for new_dep in (None, [L[0]], "auto"):
+                    for rev in (False, True):
+                        out.append({"schemes": list(L), "old_dep": old_dep, "new_dep": new_dep, "reversed": rev})
+    return out
+
+
+def eval_reuse(cfg):
+    from passlib.context import CryptContext
+
+    out = []
+    L = cfg["schemes"]
+    key = "C04|reused_hashers|"
+    kw_old = {"schemes": L, "deprecated": cfg["old_dep"]}
+    if "sha256_crypt" in L:
+        kw_old["sha256_crypt__rounds"] = 1000
+    try:
+        old = CryptContext(**kw_old)
+        objs = list(old.schemes(resolve=True))
+    except Exception as e:  # noqa: BLE001
+        return [(key + f"setup_raises:{type(e).__name__}", f"CryptContext(**{kw_old!r}).schemes(resolve=True) raised {e!r}")]
+    if cfg["reversed"]:
+        objs = objs[::-1]
+    names = [o.name for o in objs]
+    kw_new = {"schemes": objs}
+    if cfg["new_dep"] is not None:
+        if cfg["new_dep"] != "auto" and cfg["new_dep"][0] == names[0]:
+            kw_new["default"] = names[1]
+        kw_new["deprecated"] = cfg["new_dep"]
+    try:
+        new = CryptContext(**kw_new)
+    except Exception as e:  # noqa: BLE001
+        return [(key + f"valid_config_refused:{type(e).__name__}", f"CryptContext(schemes=<hashers of {kw_old!r}>{' reversed' if cfg['reversed'] else ''}, deprecated={cfg['new_dep']!r}) raised {e!r}")]
+    default = kw_new.get("default") or names[0]
+    if cfg["new_dep"] == "auto":
+        depset = set(names) - {default}
+    else:
+        depset = set(cfg["new_dep"] or ())
+    where = f"new = CryptContext(schemes=old.schemes(resolve=True){'[::-1]' if cfg['reversed'] else ''}, deprecated={cfg['new_dep']!r}{', default=' + repr(kw_new['default']) if 'default' in kw_new else ''}) with old = CryptContext(**{kw_old!r})"
+    try:
+        if new.default_scheme() != default:
+            out.append((key + "default_scheme", f"{where}: default scheme {new.default_scheme()!r}, expected {default!r}"))
+        for n in names:
+            H = HS.handler(n)
+            kw = {"rounds": 1000} if n == "sha256_crypt" else {}
+            h = (H.using(**kw) if kw else H).hash(PW)
+            want = n in depset
+            nu = new.needs_update(h)
+            if bool(nu) != want:
+                out.append((key + f"needs_update:{'missed' if want else 'stale_deprecated_flag'}", f"{where}: needs_update(<{n} hash>) = {nu!r}, the new policy deprecates {sorted(depset)}"))
+            ok, repl = new.verify_and_update(PW, h)
+            if ok is not True or (repl is not None) != want:
+                out.append((key + "verify_and_update:rehash_decision", f"{where}: verify_and_update(<{n} hash>) = ({ok!r}, {'new' if repl else None}), expected rehash = {want}"))
+            if repl is not None and new.identify(repl) != default:
+                out.append((key + "verify_and_update:new_not_default", f"{where}: replacement from {new.identify(repl)!r}, default is {default!r}"))
+        fresh = new.hash(PW)
+        if new.identify(fresh) != default:
+            out.append((key + "hash:not_default", f"{where}: hash() made a {new.identify(fresh)!r} hash"))
+        if new.needs_update(fresh):
+            out.append((key + "hash:fresh_needs_update", f"{where}: a hash the context has just made needs an update"))
+        # ... and the old context still follows ITS policy
+        old_default = L[0]
+        old_dep = set(L) - {old_default} if cfg["old_dep"] == "auto" else set(cfg["old_dep"])
+        for n in L:
+            H = HS.handler(n)
+            kw = {"rounds": 1000} if n == "sha256_crypt" else {}
+            h = (H.using(**kw) if kw else H).hash(PW)
+            if bool(old.needs_update(h)) != (n in old_dep):
+                out.append((key + "old_context_changed", f"{where}: old.needs_update(<{n} hash>) no longer follows the old policy"))
+    except Exception as e:  # noqa: BLE001
+        out.append((key + f"raises:{type(e).__name__}", f"{where}: raised {e!r}"))
+    return out
+
+
+_replay_zero = replay
+
+
+def replay(case):  # noqa: F811
+    if case.get("part") == "reused_hashers":
+        return eval_reuse(case["cfg"])
+    return _replay_zero(case)
+
+
+def work_reuse(task):
+    acc = Acc()
+    for cfg in task["cfgs"]:
+        acc.ev()
+        acc.cls("reused_hashers", ",".join(cfg["schemes"]), cfg["old_dep"], cfg["new_dep"], cfg["reversed"])
+        vs = eval_reuse(cfg)
+        acc.outcome(("reused_hashers", "viol" if vs else "ok"))
+        for key, desc in vs:
+            acc.violation(key, desc, {"part": "reused_hashers", "cfg": cfg})
+    return acc
+
+
+def tasks_reuse():
+    cfgs = reuse_configs()
+    return [{"cfgs": cfgs[i::16]} for i in range(16)]
